@@ -427,8 +427,7 @@ def oracle_docroot(line, out):
         if op == "evhost" and o[0] == "ok":
             pat, a, d = C.unhx(t[3]), C.unhx(t[4]), C.unhx(o[1])
             lit = _EV_RE.sub(b"", pat)
-            extra = 0 if (d[:-1].endswith(b"/") or not d) else 0
-            if b"/" not in a.split(b":")[0] and b"/" not in a:
+            if b"/" not in a:
                 if d.count(b"/") > lit.count(b"/") + 1:
                     return "evhost: host name added a path separator"
             if b"/" in a and t[1] == "0":
@@ -631,7 +630,8 @@ BASE_FILES = ["docroot/f.txt", "docroot/sub/g.txt", "docroot/sub/deep/h.txt", "d
               "vh/htdocs/v.txt", "vh/w.txt", "vh/v.txt"]
 BASE_CANARIES = ["canary.txt", "outside/canary.txt", "docroot-x/canary.txt", "al1-secret/canary.txt", "al/canary.txt",
                  "htdocs/canary.txt", "htdocs/v.txt",
-                 "xs-secret/canary.txt", "xsx/canary.txt", "v.txt", "w.txt", "vh-secret/htdocs/v.txt"]
+                 "xs-secret/canary.txt", "xsx/canary.txt", "v.txt", "w.txt", "vh-secret/htdocs/v.txt",
+                 "outside/htdocs/v.txt", "outside/v.txt", "outside/w.txt", "outside/htdocs/canary.txt"]
 
 
 def static_configs():
@@ -813,6 +813,14 @@ def e2e_static_cases(ctx, name, cfg, n):
         if tr != "h2" and (h != h.strip(b" \t") or not h):
             h = b"a.example"
         cases.append({"cfg": name, "host": h, "target": t, "tr": tr})
+    if cfg["vh"][0] != "none":
+        # directed: every hostile host against the names planted next to / above the vhost roots
+        for h in cfg["hosts"]:
+            for t in (b"/canary.txt", b"/v.txt", b"/w.txt", b"/htdocs/v.txt", b"/htdocs/canary.txt"):
+                tr = "h2" if rng.random() < 0.3 else "h1"
+                if tr == "h1" and h != h.strip(b" \t"):
+                    continue
+                cases.append({"cfg": name, "host": h, "target": t, "tr": tr})
     return cases
 
 
@@ -1270,7 +1278,7 @@ def run_e2e(ctx, only=None):
         return
     if not getattr(ctx, "model_ok", True):
         return
-    n = 500 if ctx.quick else 4000
+    n = 1500 if ctx.quick else 10000
     cfgs = static_configs()
     jobs = []
     for name, cfg in cfgs.items():
@@ -1281,7 +1289,7 @@ def run_e2e(ctx, only=None):
     if only in (None, "webdav"):
         jobs.append(lambda: e2e_webdav(ctx, bd, n))
     if only in (None, "symlink"):
-        jobs.append(lambda: e2e_symlink(ctx, bd, 800 if ctx.quick else 4000))
+        jobs.append(lambda: e2e_symlink(ctx, bd, 1500 if ctx.quick else 8000))
     # (generation draws from ctx.rng: keep the order deterministic by running jobs one after another;
     #  each job is internally parallel)
     for j in jobs:
